@@ -126,6 +126,21 @@ where
     S: AsPrimitive<W>,
     Pr: Into<W>,
 {
+    // batch forms (the coder reverses the order itself); alternate with the per-symbol loop
+    if !syms.is_empty() && (syms.len() + syms[0].1) % 3 == 0 {
+        run.count("batch_reverse_encodes", 1);
+        let r = if (syms.len() + syms[0].0) % 2 == 0 {
+            c.encode_symbols_reverse(syms.iter().map(|&(mi, s)| (s, &zoo[mi]))).map_err(|e| format!("{e:?}"))
+        } else {
+            c.try_encode_symbols_reverse(syms.iter().map(|&(mi, s)| Ok::<_, ()>((s, &zoo[mi])))).map_err(|e| format!("{e:?}"))
+        };
+        if let Err(e) = r {
+            run.violation("restore", "C13/re-encode-failed", format!("{desc} :: batch re-encoding of {} symbols failed with {e}", syms.len()));
+            return false;
+        }
+        let _ = (c.is_whole(), Decode::<P>::maybe_exhausted(c), Encode::<P>::maybe_full(c));
+        return heads_ok(run, c, "after batch re-encoding", desc);
+    }
     for (i, &(mi, s)) in syms.iter().enumerate().rev() {
         if let Err(e) = c.encode_symbol(s, &zoo[mi]) {
             run.violation("restore", "C13/re-encode-failed", format!("{desc} :: re-encoding symbol #{i} failed with {e:?}"));
@@ -420,4 +435,111 @@ pub fn case(run: &mut Run, rng: &mut Rng) {
     ];
     let k = rng.below(combos.len() as u64) as usize;
     combos[k](run, rng)
+}
+
+// ==========================================================================================
+// Dense single-step sweep through the cfg(constriction_verif) constructors: for (u8,u16) at
+// P = 3 every admissible pair of head registers x every next compressed word x every (cum,p)
+// whose interval contains the resulting quantile; at P = 8 (= Word bits, the special-cased
+// path) every remainders head x every word x a boundary-biased sample of (cum,p). decode then
+// encode must restore heads and both backends exactly, with the head invariant in between.
+
+fn sweep_one<const P: usize>(run: &mut Run, c: u8, r: u16, word: u8, cum: u128, p: u128) -> bool {
+    use constriction::stream::chain::ChainCoderHeads;
+    let Some((cdf, target)) = crate::rangew::three_symbol_cdf(cum, p, P as u32) else { return true };
+    let model = TableModel::<u8, P>::new(cdf);
+    let heads = ChainCoderHeads::<u8, u16, P>::verif_from_parts(core::num::NonZeroU8::new(c).unwrap(), r);
+    let mut coder = CC::<u8, u16, P>::verif_from_raw_parts(vec![0xA5, word], Vec::new(), heads);
+    let sym = match coder.decode_symbol(&model) {
+        Ok(s) => s,
+        Err(e) => {
+            run.violation("sweep", "C13/sweep-decode-error", format!("P={P} heads=({c:#x},{r:#x}) word={word:#x} cum={cum} p={p}: decode_symbol returned {e:?}"));
+            return false;
+        }
+    };
+    if sym != target {
+        // the quantile fell into a neighbouring symbol of the three-symbol model: fine, any
+        // symbol must round-trip
+    }
+    let (_, rh) = coder.state().verif_parts();
+    if (rh as u128) < pow2(16 - 8 - P as u32) || (rh as u128) >= pow2(16 - P as u32) {
+        run.violation("sweep", "C13/head-invariant", format!("P={P} heads=({c:#x},{r:#x}) word={word:#x} cum={cum} p={p}: after decode remainders head {rh:#x} violates the invariant"));
+        return false;
+    }
+    if let Err(e) = coder.encode_symbol(sym, &model) {
+        run.violation("sweep", "C13/sweep-encode-error", format!("P={P} heads=({c:#x},{r:#x}) word={word:#x} cum={cum} p={p}: re-encoding symbol {sym} returned {e:?}"));
+        return false;
+    }
+    let (cb, rb, h) = coder.verif_into_raw_parts();
+    if cb != vec![0xA5, word] || !rb.is_empty() || h.verif_parts() != (c, r) {
+        run.violation(
+            "sweep",
+            "C13/sweep-not-restored",
+            format!("P={P} heads=({c:#x},{r:#x}) word={word:#x} cum={cum} p={p} sym={sym}: after decode+encode compressed={cb:?} remainders={rb:?} heads={:?}", h.verif_parts()),
+        );
+        return false;
+    }
+    true
+}
+
+pub fn sweep(run: &mut Run) {
+    if run.small {
+        return;
+    }
+    let shard = run.shard;
+    let nsh = run.nshards;
+    let thorough = run.thorough();
+    let mut rng = Rng::new(run.seed ^ 0xC4A1 ^ shard);
+    let mut steps = 0u64;
+    // ---- P = 3
+    let (lo, hi) = (pow2(16 - 8 - 3) as u16, pow2(16 - 3) as u16);
+    let mut r = lo + shard as u16;
+    let stride = if thorough { nsh as u16 } else { nsh as u16 * 8 };
+    while r < hi {
+        for c in 1..=255u8 {
+            // when the compressed head holds fewer than P bits a word is read; otherwise it is not
+            let words: &[u8] = if (c as u128) < pow2(3) { &[0x00, 0xFF, 0x5A, 0xC3] } else { &[0x3C] };
+            for &word in words {
+                // quantile the coder will see
+                let q: u128 = if (c as u128) < pow2(3) { (word as u128) % 8 } else { (c as u128) % 8 };
+                for p in 1..8u128 {
+                    let cmin = q.saturating_sub(p - 1);
+                    for cum in cmin..=q.min(8 - p) {
+                        if !sweep_one::<3>(run, c, r, word, cum, p) {
+                            return;
+                        }
+                        steps += 1;
+                    }
+                }
+            }
+        }
+        run.heartbeat();
+        r = match r.checked_add(stride) {
+            Some(x) => x,
+            None => break,
+        };
+    }
+    // ---- P = 8 (PRECISION == Word::BITS): compressed head is always 1
+    let mut r = 1u16 + shard as u16;
+    while r < 256 {
+        for word in 0..=255u8 {
+            let q = word as u128;
+            for _ in 0..(if thorough { 40 } else { 6 }) {
+                let p = 1 + rng.edgy(8) % 255;
+                let cmin = q.saturating_sub(p - 1);
+                let cmax = q.min(256 - p);
+                if cmin > cmax {
+                    continue;
+                }
+                let cum = cmin + rng.below128(cmax - cmin + 1);
+                if !sweep_one::<8>(run, 1, r, word, cum, p) {
+                    return;
+                }
+                steps += 1;
+            }
+        }
+        run.heartbeat();
+        r += nsh as u16;
+    }
+    run.count("single_step_sweep_steps", steps);
 }
